@@ -46,6 +46,7 @@ RollbackExact == [][\A pos \in 0..MaxPlan :
    (As a separate disjunct with its own action property it multiplied TLC's work by |pos| x |stop|
    per transition without adding a state.)  The action is used by PlanState_Sim, so that simulated
    histories contain interrupted rollbacks, and judged by PlanState_Trace.                          *)
+\* (stated for the reader; true by definition, not worth a TLC pass over every state)
 CutIsBacktrack == \A pos \in 0..MaxPlan, stop \in 1..MaxPlan :
                     DoBacktrackCut(st, pos, stop) = DoBacktrack(st, stop)
 =========================================================================
